@@ -57,11 +57,18 @@ def run(repo, tier):
         if need not in branches:
             raise AnalysisError(f"Expr._compute_serialized: branch for {need} not found")
 
+    # the key is whatever local is stored into the (name-mangled) attribute self.__serialized
+    stores = [st for st in ast.walk(cs) if isinstance(st, ast.Assign) and isinstance(st.targets[0], ast.Attribute) and st.targets[0].attr.endswith("__serialized")
+              and isinstance(st.value, ast.Name)]
+    if len(stores) != 1:
+        raise AnalysisError("Expr._compute_serialized: the single store `self.__serialized = <key>` not found")
+    keyvar = stores[0].value.id
+
     def rvalue(body):
         for st in body:
-            if isinstance(st, ast.Assign) and dotted(st.targets[0]) == "r":
+            if isinstance(st, ast.Assign) and dotted(st.targets[0]) == keyvar:
                 return st.value
-        raise AnalysisError("Expr._compute_serialized: `r = (...)` not found in a branch")
+        raise AnalysisError(f"Expr._compute_serialized: `{keyvar} = (...)` not found in a branch")
 
     # ---- constant branch
     cv = rvalue(branches["constant"])
@@ -69,43 +76,44 @@ def run(repo, tier):
         raise AnalysisError("constant key is not a tuple literal")
     # unpacking `value, like = self.operands`
     unpack = [st for st in branches["constant"] if isinstance(st, ast.Assign) and isinstance(st.targets[0], ast.Tuple) and dotted(st.value) == "self.operands"]
-    if not unpack or [dotted(e) for e in unpack[0].targets[0].elts] != ["value", "like"]:
+    if not unpack or len(unpack[0].targets[0].elts) != 2 or not all(isinstance(e, ast.Name) for e in unpack[0].targets[0].elts):
         raise AnalysisError("constant branch: `value, like = self.operands` not found")
+    VAL, LIKE = (e.id for e in unpack[0].targets[0].elts)
     elts = cv.elts
     has_kind = any(_mentions(e, "self.kind") for e in elts)
     r.ob("R7.2", "expr.py::Expr._compute_serialized constant key contains kind", has_kind, "constant key lost its kind component", loc(rel, cv))
-    has_like = any(dotted(e) == "like.key" for e in elts)
+    has_like = any(dotted(e) == f"{LIKE}.key" for e in elts)
     r.ob("R7.2", "expr.py::Expr._compute_serialized constant key contains like.key", has_like, "constant key lost the key of the like operand (reference type)", loc(rel, cv))
-    val_elts = [e for e in elts if "value" in _names(e)]
+    val_elts = [e for e in elts if VAL in _names(e)]
     if len(val_elts) != 1:
         raise AnalysisError("constant key: value component not recognised")
     ve = val_elts[0]
     plain = ve.orelse if isinstance(ve, ast.IfExp) else ve
     if isinstance(ve, ast.IfExp):
-        ok = dotted(ve.body) == "value.key" and "isinstance(value, Expr)" in norm_src(ve.test)
+        ok = dotted(ve.body) == f"{VAL}.key" and f"isinstance({VAL}, Expr)" in norm_src(ve.test)
         r.ob("R7.2", "expr.py::Expr._compute_serialized constant value that is an expression uses its key", ok, f"`{norm_src(ve)}`", loc(rel, ve))
     comps = plain.elts if isinstance(plain, ast.Tuple) else [plain]
-    has_type = any("type(value)" in norm_src(c) for c in comps)
+    has_type = any(f"type({VAL})" in norm_src(c) for c in comps)
     r.ob("R7.2", "expr.py::Expr._compute_serialized constant key contains the value's type", has_type,
          "the key of a constant no longer contains type(value): 1, 1.0 and True hash and compare equal", loc(rel, plain))
     encoders = []
     conditional = []
     raw = False
     for c in comps:
-        if isinstance(c, ast.Name) and c.id == "value":
+        if isinstance(c, ast.Name) and c.id == VAL:
             raw = True
             continue
-        if "type(value)" in norm_src(c):
+        if f"type({VAL})" in norm_src(c):
             continue
         # an encoding counts only when it is applied unconditionally: the tuple element itself is the encoder call
         if isinstance(c, ast.Call):
             nm = call_name(c) or ""
             last = nm.split(".")[-1]
-            on_value = any("value" in _names(a) for a in c.args) or (isinstance(c.func, ast.Attribute) and "value" in _names(c.func.value))
+            on_value = any(VAL in _names(a) for a in c.args) or (isinstance(c.func, ast.Attribute) and VAL in _names(c.func.value))
             if (nm in INJECTIVE_ENCODERS or last in INJECTIVE_ENCODERS) and on_value and not any(isinstance(x, (ast.IfExp, ast.BoolOp)) for x in ast.walk(c)):
                 encoders.append(nm)
                 continue
-        if "value" in _names(c) and any(isinstance(x, (ast.IfExp, ast.BoolOp, ast.Compare)) for x in ast.walk(c)):
+        if VAL in _names(c) and any(isinstance(x, (ast.IfExp, ast.BoolOp, ast.Compare)) for x in ast.walk(c)):
             conditional.append(norm_src(c))
     ok = bool(encoders)
     r.ob(
@@ -199,12 +207,17 @@ def run(repo, tier):
     # ------------------------------------------------------------------ R7.3
     new = repo.func(rel, "Expr.__new__")
     rets = [n for n in ast.walk(new) if isinstance(n, ast.Return)]
-    for rt in rets:
-        ok = isinstance(rt.value, ast.Call) and (call_name(rt.value) or "").endswith("._register_expression") and rt.value.args and dotted(rt.value.args[0]) == "obj"
-        r.ob("R7.3", f"expr.py::Expr.__new__ `{norm_src(rt)}`", ok, "Expr.__new__ returns an object that did not go through Context._register_expression", loc(rel, rt))
+    # the object under construction is the local bound to object.__new__(cls)
+    alloc = [st for st in ast.walk(new) if isinstance(st, ast.Assign) and isinstance(st.targets[0], ast.Name) and isinstance(st.value, ast.Call) and dotted(st.value.func) == "object.__new__"]
+    if len(alloc) != 1:
+        raise AnalysisError("Expr.__new__: the single allocation `<obj> = object.__new__(cls)` not found")
+    OBJ = alloc[0].targets[0].id
+    for k_, rt in enumerate(rets):
+        ok = isinstance(rt.value, ast.Call) and (call_name(rt.value) or "").endswith("._register_expression") and rt.value.args and dotted(rt.value.args[0]) == OBJ
+        r.ob("R7.3", f"expr.py::Expr.__new__ return #{k_} registers the new object", ok, f"`{norm_src(rt)}`: Expr.__new__ returns an object that did not go through Context._register_expression", loc(rel, rt))
     # the key must be computed before registration, after operands are final
     order = [i for i, st in enumerate(new.body) if any((call_name(c) or "").endswith("_compute_serialized") for c in calls_in(st))]
-    assign_ops = [i for i, st in enumerate(new.body) if isinstance(st, ast.Assign) and dotted(st.targets[0]) == "obj.operands"]
+    assign_ops = [i for i, st in enumerate(new.body) if isinstance(st, ast.Assign) and dotted(st.targets[0]) == f"{OBJ}.operands"]
     ok = bool(order) and bool(assign_ops) and assign_ops[-1] < order[0]
     r.ob("R7.3", "expr.py::Expr.__new__ key computed after operands are final", ok, "obj._compute_serialized() runs before obj.operands is assigned", loc(rel, new))
     # object.__new__ of Expr elsewhere
@@ -223,15 +236,25 @@ def run(repo, tier):
                     r.ob("R7.3", f"{rel2} object.__new__(Expr)", False, "an Expr is allocated outside Expr.__new__", loc(rel2, n))
     # _register_expression paths
     reg = repo.func("context.py", "Context._register_expression")
+    # the previously registered object is the local bound to the table lookup self._expressions.get(...)
+    look = [st for st in ast.walk(reg) if isinstance(st, ast.Assign) and isinstance(st.targets[0], ast.Name) and isinstance(st.value, ast.Call)
+            and isinstance(st.value.func, ast.Attribute) and st.value.func.attr == "get" and (dotted(st.value.func.value) or "").endswith("._expressions")]
+    if len(look) != 1:
+        raise AnalysisError("_register_expression: the single lookup `<prev> = self._expressions.get(...)` not found")
+    PREV = look[0].targets[0].id
     for p in enumerate_paths(reg):
         if p.exit == "raise":
             continue
         miss = None
         for e in p.events:
-            if e.kind == "test" and norm_src(e.node) == "prev is None":
-                miss = e.pol
+            if e.kind == "test" and isinstance(e.node, ast.Compare) and len(e.node.ops) == 1 and dotted(e.node.left) == PREV \
+                    and isinstance(e.node.comparators[0], ast.Constant) and e.node.comparators[0].value is None:
+                if isinstance(e.node.ops[0], ast.Is):
+                    miss = e.pol
+                elif isinstance(e.node.ops[0], ast.IsNot):
+                    miss = not e.pol
         if miss is None:
-            raise AnalysisError("_register_expression: test `prev is None` not found on a path")
+            raise AnalysisError(f"_register_expression: test `{PREV} is None` not found on a path")
         stores = [e for e in p.events if e.kind == "stmt" and any(isinstance(n, ast.Subscript) and isinstance(n.ctx, ast.Store) and (dotted(n.value) or "").endswith("._expressions") for n in ast.walk(e.node))]
         setid = [e for e in p.events if e.kind == "stmt" and any((call_name(c) or "").endswith("_set_serialized_id") for c in calls_in(e.node))]
         incs = [e for e in p.events if e.kind == "stmt" and isinstance(e.node, ast.AugAssign) and (dotted(e.node.target) or "").endswith("._expression_counter")]
@@ -252,9 +275,9 @@ def run(repo, tier):
                 ok = dotted(sub.slice) == "expr.key"
                 detail = f"table is written under `{norm_src(sub.slice)}` but looked up under expr.key"
             r.ob("R7.3", "context.py::Context._register_expression miss path", ok, detail, loc("context.py", reg))
-            r.ob("R7.3", "context.py::Context._register_expression miss path returns the new object", retv == "prev", f"returns `{retv}`", loc("context.py", reg))
+            r.ob("R7.3", "context.py::Context._register_expression miss path returns the new object", retv == PREV, f"returns `{retv}`", loc("context.py", reg))
         else:
-            ok = not stores and not setid and not incs and retv == "prev"
+            ok = not stores and not setid and not incs and retv == PREV
             r.ob("R7.3", "context.py::Context._register_expression hit path", ok,
                  f"hit path writes the table/ids ({len(stores)} stores, {len(setid)} id assignments, {len(incs)} increments) or returns `{retv}` instead of the registered object", loc("context.py", reg))
     lookups = [c for c in calls_in(reg) if isinstance(c.func, ast.Attribute) and c.func.attr == "get" and (dotted(c.func.value) or "").endswith("._expressions")]
